@@ -3,7 +3,7 @@ C13 (exit status / stream discipline), C14 (source-format resolution), C15 (flus
 import re
 
 from engine import rule, AnchorLost
-from model import enum_edge, Super, PathSens, fn_of, trace, strace, is_place, site, const_value, carriers, switches_on_carriers, uses_of_local
+from model import enum_edge, Super, PathSens, fn_of, trace, strace, strace_deep, is_place, site, const_value, carriers, switches_on_carriers, uses_of_local
 import cliview
 import common
 import tables
@@ -30,7 +30,20 @@ def _only_exit(v, start, code, removed_nodes=()):
     """Path-sensitive: every end of a path that takes the failure continuation `start` is exit(code)."""
     r = v.reach(start, removed_nodes=removed_nodes)
     terms = v.ends(r)
-    return r, terms, bool(terms) and all(v.is_exit(x, code) for x in terms)
+    sts = getattr(r, "states", {})
+    return r, terms, bool(terms) and all(v.is_exit(x, code, sts.get(x)) for x in terms)
+
+
+def _fail_only_exit(v, node, code, removed_nodes=()):
+    """(reach, ends, ok): after the call at `node` failed, every path ends in process::exit(code)."""
+    r = v.fail_reach(node, removed_nodes=removed_nodes)
+    terms = v.ends(r)
+    return r, terms, bool(terms) and all(v.is_exit(x, code, r.states.get(x)) for x in terms)
+
+
+def _fail_always_through(v, node, through):
+    r = v.fail_reach(node, removed_nodes=set(through))
+    return not v.ends(r)
 
 
 def _always_through(v, start, through):
@@ -62,20 +75,18 @@ def r15_1(ctx):
             x = leak[0]
             what = "the next translate_* call (next input)" if any(x == tn for tn, _, _ in v.translate) else ("main's return" if x in sup.exits() else "a process::exit")
         ctx.ob(f"{key}:flush-before-next", not leak, v.site(n), "flush intervenes on every success path" if not leak else f"a success path reaches {what} without Translator::flush")
-        for st in starts:
-            rr, terms, ok = _only_exit(v, st, 1)
-            ok = ok and not any(tn in rr for tn, _, _ in v.translate)
-            ctx.ob(f"{key}:failure-exits-1", ok, v.site(v.start_node(st)), "failure continuation diverges to exit(1)" if ok else "failure continuation can go on with the next input or return from main")
+        rr, terms, ok = _fail_only_exit(v, n, 1)
+        ok = ok and not any(tn in rr for tn, _, _ in v.translate)
+        ctx.ob(f"{key}:failure-exits-1", ok, v.site(n), "a failed translation always ends in exit(1)" if ok else "after a failed translation the run can go on with the next input or return from main")
     ctx.ob("flush-site-present", len(flush_nodes) >= 1, site(v.main), f"{len(flush_nodes)} Translator::flush call(s) reachable from main")
     errw = _xt_error_nodes(v)
     for n, b, t in v.flush:
         inspected, starts = v.err_starts(n, t)
         ctx.ob("flush:result-inspected", inspected, v.site(n), "flush result is matched on" if inspected else "the result of Translator::flush is discarded")
-        for st in starts:
-            rr, terms, ok = _only_exit(v, st, 1)
-            ctx.ob("flush:failure-exits-1", ok, v.site(n), "flush failure diverges to exit(1)" if ok else "flush failure does not end the run with status 1")
-            ok2 = bool(terms) and _always_through(v, st, errw)
-            ctx.ob("flush:failure-reported", ok2, v.site(n), "an 'xt error' line is written to stderr before exiting" if ok2 else "flush failure exits without an 'xt error' message")
+        rr, terms, ok = _fail_only_exit(v, n, 1)
+        ctx.ob("flush:failure-exits-1", ok, v.site(n), "flush failure diverges to exit(1)" if ok else "flush failure does not end the run with status 1")
+        ok2 = bool(terms) and _fail_always_through(v, n, errw)
+        ctx.ob("flush:failure-reported", ok2, v.site(n), "an 'xt error' line is written to stderr before exiting" if ok2 else "flush failure exits without an 'xt error' message")
 
 
 # --------------------------------------------------------------------------- C13
@@ -97,6 +108,18 @@ def r13_1(ctx):
     k = {}
     for b in binc.bodies:
         for bb, code in exit_calls(b):
+            if code is None:
+                # computed status (e.g. `exit(failure.exit_code())`): the constants it can hold in any
+                # calling context reachable from main
+                codes = set()
+                for nd in v.nodes:
+                    if nd[1] == bb and sup.body_of(nd) is b and v._states().get(nd):
+                        codes |= v.exit_codes(nd)
+                kk = (b.file, "computed")
+                k[kk] = k.get(kk, 0) + 1
+                okc = bool(codes) and codes <= {0, 1, 2}
+                ctx.ob(f"exit-code:{b.file}:computed:{k[kk] - 1}", okc, site(b, bb), f"process::exit(<computed>) with values {sorted(codes, key=str)}" if okc else f"process::exit with a status that is not provably one of 0/1/2: {sorted(codes, key=str)}")
+                continue
             k[(b.file, code)] = k.get((b.file, code), 0) + 1
             ctx.ob(f"exit-code:{b.file}:{code}:{k[(b.file, code)] - 1}", code in (0, 1, 2), site(b, bb), f"process::exit({code})")
     # (b) exit(2)
@@ -104,7 +127,7 @@ def r13_1(ctx):
     pn, pb, pt, parse_fn = v.parse[0]
     inspected, starts = v.err_starts(pn, pt)
     ctx.need(inspected, "main never inspects the argument parser's result")
-    e2 = [n for n, c in v.exits if c == 2]
+    e2 = [n for n, c in v.exits if c == 2 or (c is None and 2 in v.exit_codes(n))]
     ctx.ob("exit2:sites", len(e2) >= 1, site(v.main), f"{len(e2)} exit(2) site(s) reachable from main")
     errw = _xt_error_nodes(v)
     for st in starts:
@@ -123,7 +146,7 @@ def r13_1(ctx):
     rm_nodes = {s[1] for s in starts if s[0] == "node"}
     rm_edges = {s[1] for s in starts if s[0] == "edge"}
     r_ok = v.reach_after_return(pn, removed_nodes=rm_nodes, removed_edges=rm_edges)
-    bad = [n for n in e2 if n in r_ok]
+    bad = [n for n in e2 if n in r_ok and 2 in v.exit_codes(n, getattr(r_ok, "states", {}).get(n))]
     ctx.ob("exit2:unreachable-after-valid-args", not bad, v.site(pn), "exit(2) is not reachable once the command line was accepted" if not bad else "exit(2) can be reached after the command line was accepted")
     for n, b, t in v.new:
         ctx.ob("exit2:precedes-translation", sup.dominates(pn, n), v.site(n), "argument parsing dominates translator construction")
@@ -172,15 +195,13 @@ def r13_1(ctx):
     for kind, n, t in fallible:
         inspected, starts = v.err_starts(n, t)
         ctx.ob(f"fail:{kind}:inspected", inspected, v.site(n), "result is matched on" if inspected else "result is never inspected")
-        for st in starts:
-            sn_ = v.start_node(st)
-            r, terms, ok = _only_exit(v, st, 1)
-            ok = ok and not any(tn in r for tn, _, _ in v.translate)
-            ctx.ob(f"fail:{kind}:diverges-exit-1", ok, v.site(sn_), "failure continuation reaches only exit(1)" if ok else "failure continuation can go on or return (status 0 with a failed input)")
-            if kind != "flush":
-                named_nodes = [w for w, tmpl, dts in named_w if w in r and tmpl.startswith("xt error in ") and any(vocab.bin_vocab(ctx.facts)["path"]["path"] in ty or "Path" in ty for _, ty in dts)]
-                named = bool(terms) and bool(named_nodes) and _always_through(v, st, named_nodes)
-                ctx.ob(f"fail:{kind}:names-input", named, v.site(sn_), "message is 'xt error in <input>: ...'" if named else "failure message does not name the offending input")
+        r, terms, ok = _fail_only_exit(v, n, 1)
+        ok = ok and not any(tn in r for tn, _, _ in v.translate)
+        ctx.ob(f"fail:{kind}:diverges-exit-1", ok, v.site(n), "after this step fails every path ends in exit(1)" if ok else "after this step fails the run can go on or return (status 0 with a failed input)")
+        if kind != "flush":
+            named_nodes = [w for w, tmpl, dts in named_w if w in r and tmpl.startswith("xt error in ") and any(vocab.bin_vocab(ctx.facts)["path"]["path"] in ty or "Path" in ty for _, ty in dts)]
+            named = bool(terms) and bool(named_nodes) and _fail_always_through(v, n, named_nodes)
+            ctx.ob(f"fail:{kind}:names-input", named, v.site(n), "message is 'xt error in <input>: ...'" if named else "failure message does not name the offending input")
 
 
 def _lexopt_origin(psup, tr):
@@ -584,7 +605,7 @@ def r14_1(ctx):
             ob = sup.body_of(onode)
             f = fn_of(oc) or {}
             if f.get("def") in OPTION_FALLBACK and all(s[0] in ("use", "enter_caller") for s in tr.steps):
-                p = strace(sup, onode, oc["args"][0], extra=UNWRAPS)
+                p = strace_deep(sup, onode, oc["args"][0], extra=UNWRAPS, stop_at=(pt,))
                 prim_ok = bool(p.origin and p.origin[0] == "call" and p.origin[2] is pt and p.has("field"))
                 pfield = [s[1] for s in p.steps if s[0] == "field"]
                 sec_ok = False
@@ -856,6 +877,31 @@ def r14_3(ctx):
         cl_ok = all(not sup.on_cycle(c) for c in clears) and len(clears) >= 1
         ctx.ob("flag-cleared-only-before-loop", cl_ok, site(b), f"`{gname} = false` only outside the input loop" if cl_ok else f"`{gname}` is reset inside the input loop")
     if not found:
+        # idiom (iii): the flag is a two-state field of a session-like struct, tested and set by a method
+        import flagstate
+
+        for adt_path, a in binc.adts.items():
+            if a["crate"] != "xt" or a["kind"] != "struct" or found:
+                continue
+            for fl in flagstate.flags_of(binc, adt_path):
+                for tst in flagstate.tests(sup, fl):
+                    ce, se = tst["edges"][flagstate.CLEAR], tst["edges"][flagstate.SET]
+                    if not ps.edge_dominates(ce[0], ce[1], ce[2], sn):
+                        continue
+                    found = True
+                    gname = fl.field
+                    ctx.ob("guard-dominates-stdin", True, v.site(tst["node"]), f"stdin() is reached only through the clear edge of `{gname}` (field of {adt_path})")
+                    r, terms, ok = _only_exit(v, ("edge", se), 1)
+                    ctx.ob("second-use-exits-1", ok, v.site(tst["node"]), "second use of stdin ends in exit(1)" if ok else "second use of stdin is not refused")
+                    import r_c08
+
+                    setters = r_c08._set_nodes(sup, fl)
+                    armed = (tst["how"] == "replace" and tst.get("wrote") == flagstate.SET) or sn not in ps.reach_from_edge(ce[0], ce[1], ce[2], removed_nodes=setters)
+                    ctx.ob("flag-set-before-read", armed, v.site(sn), f"`{gname}` is set before stdin() on every path" if armed else f"`{gname}` is not set before reading stdin")
+                    ws = flagstate.writes(binc, fl)
+                    cl_ok = all(role == flagstate.SET for _, _, role, _ in ws) and not flagstate.mut_borrow_escapes(binc, fl) and bool(ws)
+                    ctx.ob("flag-cleared-only-before-loop", cl_ok, adt_path, f"`{gname}` is only ever set after construction" if cl_ok else f"`{gname}` can be reset")
+    if not found:
         ctx.ob("guard-dominates-stdin", False, v.site(sn), "no set-once bool guard dominates the stdin() site")
     # "-" -> stdin; no file arguments -> one stdin input
     dash = False
@@ -929,7 +975,7 @@ def r14_4(ctx):
         else:
             ok = any(s[0] == "downcast" and s[1] == vocab.bin_vocab(ctx.facts)["opened"]["file"] for s in tr.steps) and all(s[0] in ("use", "field", "downcast", "enter_caller", "agg_field") for s in tr.steps)
             ctx.ob(f"{key}:file-passed-as-is", ok, v.site(n), "the opened file is the reader" if ok else f"reader argument is transformed: {tr.kinds()}")
-        rtr = strace(sup, n, t["args"][0])
+        rtr = strace_deep(sup, n, t["args"][0], stop_at=tuple(x[2] for x in v.new))
         same = bool(rtr.origin and rtr.origin[0] == "call" and v.new and rtr.origin[2] is v.new[0][2])
         ctx.ob(f"{key}:same-translator", same, v.site(n), "uses the translator constructed before the loop" if same else "translate_* is called on a different translator")
 
